@@ -78,7 +78,7 @@ def compare(base, other, what):
 
 def run(ctx):
     rng = ctx.rng
-    n_prog = ctx.n(90, 1500)
+    n_prog = ctx.n(220, 1500)
     n_async = ctx.n(3, 8)
     cases, groups = [], []
     dist = {"family": {}, "failing": 0, "perm": 0, "max_width": 0}
